@@ -68,3 +68,87 @@ pub fn check_rename(case: &str) -> Result<(), String> {
     if let SLinkedList{..} = r { if !wf_list(&r) { return Err(format!("renamed list is not well formed: {}", ser(&r))); } }
     Ok(())
 }
+
+// ---- whole clauses: get_rule and make_query ---------------------------------------------------
+/// `$Name_id` tokens of a displayed clause, and the text with the ids removed
+fn scan_vars(text: &str) -> (String, Vec<(String, usize)>) {
+    let cs: Vec<char> = text.chars().collect();
+    let mut out = String::new();
+    let mut vars = vec![];
+    let mut i = 0;
+    while i < cs.len() {
+        if cs[i] == '$' {
+            let mut j = i + 1;
+            while j < cs.len() && (cs[j].is_alphanumeric() || cs[j] == '_') { j += 1; }
+            let tok: String = cs[i..j].iter().collect();
+            if let Some(p) = tok.rfind('_') {
+                if p > 0 && p + 1 < tok.len() && tok[p + 1..].chars().all(|c| c.is_ascii_digit()) {
+                    vars.push((tok[..p].to_string(), tok[p + 1..].parse().unwrap()));
+                    out += &tok[..p];
+                    i = j; continue;
+                }
+            }
+            if tok != "$_" && tok.len() > 1 { vars.push((tok.clone(), 0)); }
+            out += &tok; i = j; continue;
+        }
+        out.push(cs[i]); i += 1;
+    }
+    (out, vars)
+}
+
+pub fn enum_clause(_s: u64) -> Vec<String> {
+    let rules = ["f($X, $Y) :- g($X), h($Y, $X, [a, $X | $T]).", "p([], [$H | $T], $H).", "q($A) :- $A = [$B, []], not(r($B)), $C = add($B, 1), print($C, $A).",
+        "s($X) :- t($X, $Y); u($Y, $Z), !, $Z > $X.", "w($_, $X, $X).", "n(a, 1, 2.5)."];
+    let queries = ["f($X, $Y, $X)", "g([$A, $B | $A], [], $C)", "h(a)", "k($X, add($X, $Y), [$Y])"];
+    let mut out: Vec<String> = rules.iter().map(|r| format!("rule\u{1}{}", r)).collect();
+    out.extend(queries.iter().map(|q| format!("query\u{1}{}", q)));
+    out
+}
+
+fn check_vars(vars: &[(String, usize)], floor: usize, what: &str) -> Result<Vec<usize>, String> {
+    let mut seen: HashMap<String, usize> = HashMap::new();
+    for (n, id) in vars {
+        if *id == 0 || *id <= floor { return Err(format!("{}: variable {} got id {} which is not fresh (counter was {})", what, n, id, floor)); }
+        if let Some(old) = seen.get(n) { if old != id { return Err(format!("{}: name {} got two ids ({} and {})", what, n, old, id)); } }
+        seen.insert(n.clone(), *id);
+    }
+    let mut ids: Vec<usize> = seen.values().cloned().collect();
+    ids.sort(); ids.dedup();
+    if ids.len() != seen.len() { return Err(format!("{}: two names share an id", what)); }
+    Ok(ids)
+}
+
+pub fn check_clause(case: &str) -> Result<(), String> {
+    let (kind, text) = case.split_once('\u{1}').ok_or("bad case")?;
+    if kind == "rule" {
+        let rule = parse_rule(text).map_err(|e| format!("setup: {}", e))?;
+        let key = rule.key();
+        let stored = format!("{}", rule);
+        let mut kb = KnowledgeBase::new();
+        add_rules(&mut kb, vec![rule]);
+        set_var_id(20);
+        let r1 = format!("{}", get_rule(&kb, &key, 0));
+        let mid = get_var_id();
+        let r2 = format!("{}", get_rule(&kb, &key, 0));
+        let (s0, _) = scan_vars(&stored);
+        let (s1, v1) = scan_vars(&r1);
+        let (s2, v2) = scan_vars(&r2);
+        if s1 != s0 || s2 != s0 { return Err(format!("get_rule changed more than variables: {} -> {} / {}", s0, s1, s2)); }
+        let ids1 = check_vars(&v1, 20, "first use")?;
+        let ids2 = check_vars(&v2, mid, "second use")?;
+        if ids2.iter().any(|i| ids1.contains(i)) { return Err("second use of the clause reused an id of the first".into()); }
+        let (s3, _) = scan_vars(&format!("{}", get_rule(&kb, &key, 0)));
+        if s3 != s0 { return Err("third use changed the clause".into()); }
+        Ok(())
+    } else {
+        let c = parse_complex(text).map_err(|e| format!("setup: {}", e))?;
+        let terms = match &c { SComplex(ts) => ts.clone(), _ => return Err("setup".into()) };
+        let before = format!("{}", c);
+        let g = make_query(terms);
+        let (s0, _) = scan_vars(&before);
+        let (s1, v1) = scan_vars(&format!("{}", g));
+        if s1 != s0 { return Err(format!("make_query changed more than variables: {} -> {}", s0, s1)); }
+        check_vars(&v1, 0, "query")?;
+        Ok(())
+    }
+}
